@@ -757,29 +757,7 @@ func runC05(c *Ctx) {
 		}
 	}
 
-	// ---------- C05.g ----------
-	c.clause("C05.g", "T1", "chunks read back from the (varint-keyed, not order-preserving) extra bucket are sorted by chunk offset before sizes are derived from neighbours", 1)
-	if f := c.mustFn(dbp, "readChunks"); f != nil {
-		fe := callsIn(f, func(id string, _ ssa.CallInstruction) bool { return strings.HasSuffix(id, "bbolt.(*Bucket).ForEach") })
-		sorts := callsIn(f, idIs("sort.Slice", "sort.SliceStable", "slices.SortFunc"))
-		var sizeStores []ssa.Instruction
-		eachInstr(f, func(i ssa.Instruction) {
-			if st, ok := i.(*ssa.Store); ok {
-				if fa, ok := st.Addr.(*ssa.FieldAddr); ok && typeQName(fa.X.Type()) == dbp+".chunkEntry" && fieldName(fa) == "chunkSize" {
-					sizeStores = append(sizeStores, i)
-				}
-			}
-		})
-		good := len(fe) > 0 && len(sizeStores) > 0
-		for _, x := range fe {
-			for _, st := range sizeStores {
-				if got, _ := reach(f, x, isInstr(st), newCuts().addCalls(sorts)); got != nil {
-					good = false
-				}
-			}
-		}
-		c.verdict(c.fnKey(f)+":sorted-before-sizes", f.Pos(), good, "sort by chunk offset between the bucket scan and the size derivation", "chunk sizes are derived from neighbours in bucket-iteration order, which is not chunk-offset order for varint keys: chunk boundaries differ from the memory store")
-	}
+	clauseSortedChunks(c, "C05.g")
 	c.assume("bolt transactions are isolated; json.Decoder reads through the TeeReader only")
 }
 
